@@ -164,11 +164,13 @@ func (eng *Engine) verifyFunctionSpec(fn *ssa.Function, modes Modes, spec map[st
 		if _, isPtr := fn.Params[0].Type().Underlying().(*types.Pointer); isPtr {
 			r := g.def("modref", "Int", fmt.Sprintf("(pref %s)", args[0]))
 			g.modRefs = []string{r}
+			g.modRanges = []modRange{{r, fmt.Sprintf("(poff %s)", args[0]), fmt.Sprintf("(+ (poff %s) %d)", args[0], slots(fn.Params[0].Type().Underlying().(*types.Pointer).Elem()))}}
 			// ... and the backing arrays of the slices stored directly in that object (appending to a field may write
 			// into the spare capacity of its array)
 			et := fn.Params[0].Type().Underlying().(*types.Pointer).Elem()
 			for _, off := range sliceSlots(et, 0) {
 				g.modRefs = append(g.modRefs, g.def("modref", "Int", fmt.Sprintf("(sref %s)", sel(st0.H["L"], fmt.Sprintf("(pref %s)", args[0]), fmt.Sprintf("(+ (poff %s) %d)", args[0], off)))))
+				g.modRanges = append(g.modRanges, modRange{g.modRefs[len(g.modRefs)-1], "", ""})
 			}
 			recv := args[0]
 			slotsL := sliceSlots(et, 0)
@@ -260,6 +262,7 @@ func (eng *Engine) verifyFunctionSpec(fn *ssa.Function, modes Modes, spec map[st
 		}
 		if modes.Frame || len(ct.Modifies) > 0 {
 			var refs []string
+			var ranges []modRange
 			for _, m := range ct.Modifies {
 				e := top.newEnv(st0, nil, nil)
 				var v tv
@@ -267,13 +270,20 @@ func (eng *Engine) verifyFunctionSpec(fn *ssa.Function, modes Modes, spec map[st
 					defer wrapClauseErr(m)
 					v = e.value(e.eval(m.Expr))
 				}()
-				r, ok := refOf(v)
+				rg, ok := rangeOf(v)
 				if !ok {
 					panic(contractError{fmt.Sprintf("%s: modifies target has no reference: %s", m.Where, m.Text)})
 				}
-				refs = append(refs, g.def("modref", "Int", r))
+				rg.ref = g.def("modref", "Int", rg.ref)
+				if rg.lo != "" {
+					rg.lo = g.def("modlo", "Int", rg.lo)
+					rg.hi = g.def("modhi", "Int", rg.hi)
+				}
+				refs = append(refs, rg.ref)
+				ranges = append(ranges, rg)
 			}
 			g.modRefs = refs
+			g.modRanges = ranges
 			g.modAll = ct.ModifiesAll
 			if ct.ModifiesAll {
 				g.modset = func(r string) string { return "true" }
